@@ -1,8 +1,9 @@
 package main
 
 import (
-	"os"
 	"fmt"
+	"github.com/sdcio/yang-parser/schema"
+	"os"
 	"sort"
 	"strings"
 )
@@ -471,6 +472,27 @@ func renderSub(parent string, s mspec) string {
 	return b.String()
 }
 
+// the identities an identityref leaf admits, in the order the compiled type lists them
+func identListing(n schema.Node, path string) string {
+	out := ""
+	kids := append([]schema.Node{}, n.Children()...)
+	sort.Slice(kids, func(i, j int) bool { return kids[i].Name() < kids[j].Name() })
+	for _, c := range kids {
+		p := path + "/" + c.Name()
+		if l, ok := c.(schema.Leaf); ok {
+			if ir, ok := l.Type().(schema.Identityref); ok {
+				var ids []string
+				for _, id := range ir.Identities() {
+					ids = append(ids, id.Module+":"+id.Val)
+				}
+				out += "\nidentities " + p + " = " + strings.Join(ids, " ")
+			}
+		}
+		out += identListing(c, p)
+	}
+	return out
+}
+
 var modsClasses = []struct{ sub, cls string }{
 	{"Feature cyclic reference", "err:feature-cycle"}, {"Identity cyclic reference", "err:identity-cycle"},
 	{"Typedef cyclic reference", "err:typedef-cycle"}, {"Grouping cycle detected", "err:grouping-cycle"},
@@ -526,7 +548,7 @@ func runYMods(c Case) string {
 		}
 		d := ""
 		if err == nil {
-			d = dumpModelSet(ms).String()
+			d = dumpModelSet(ms).String() + identListing(ms, "")
 		}
 		if run == 0 {
 			first, firstDump = modsClass(err), d
@@ -540,6 +562,9 @@ func runYMods(c Case) string {
 			}
 			if v != f0 || d != firstDump {
 				unstable = fmt.Sprintf("run %d: %s vs %s", run, v, f0)
+				if os.Getenv("YV_DEBUG") != "" {
+					fmt.Fprintf(os.Stderr, "---- first\n%s\n---- now\n%s\n", firstDump, d)
+				}
 			}
 		}
 	}
